@@ -58,7 +58,7 @@ def fingerprint_part(part):
                 e = int(o.end.t) if o.end is not None else None
                 if isinstance(o, S.GenericNote):
                     if isinstance(o, S.Note):
-                        pitch = (o.step, o.alter or 0, o.octave)
+                        pitch = (o.step, int(o.alter or 0), int(o.octave))      # (the MIDI importer leaves numpy integers)
                     elif isinstance(o, S.UnpitchedNote):
                         pitch = ("unpitched", o.step, o.octave)
                     else:
@@ -67,7 +67,8 @@ def fingerprint_part(part):
                     if isinstance(o, S.GraceNote):
                         grace = "acciaccatura" if o.grace_type == "acciaccatura" else "grace"
                     fing = tuple(str(x.fingering) for x in (o.technical or []) if isinstance(x, S.Fingering))
-                    cat["notes"].append((cls.__name__, o.id, t, e, pitch, o.voice, o.staff, sym(o._sym_dur if o._sym_dur else o.symbolic_duration),
+                    # (a note without a staff stands on staff 1: MusicXML has no way to say "no staff" in a one-staff part)
+                    cat["notes"].append((cls.__name__, o.id, t, e, pitch, int(o.voice) if o.voice is not None else None, int(o.staff or 1), sym(o._sym_dur if o._sym_dur else o.symbolic_duration),
                                          getattr(o.tie_next, "id", None), getattr(o.tie_prev, "id", None),
                                          tuple(sorted(o.articulations or ())), fing, o.stem_direction, o.fermata is not None, grace))
                 elif cls is S.Measure:
@@ -148,6 +149,25 @@ def has_underfull_measure(part):
     return False
 
 
+def overlaps_in_its_voice(part, note_id):
+    """The note sounds together with a note of its own voice that has another onset or end (the writer moves one of them)."""
+    import partitura.score as S
+    notes = [n for n in timemaps.objects_of(part, S.GenericNote, exact=False) if not isinstance(n, S.GraceNote) and n.end is not None]
+    me = [n for n in notes if n.id == note_id]
+    if len(me) != 1:
+        return False
+    me = me[0]
+    same = [n for n in notes if (n.voice or 0) == (me.voice or 0)]
+    # the writer's rule is transitive over the measure: any overlap among the notes of that voice in the same measure may move this note
+    lo, hi = me.start.t, me.end.t
+    for m_ in timemaps.objects_of(part, S.Measure):
+        if m_.end is not None and m_.start.t <= me.start.t < m_.end.t:
+            lo, hi = m_.start.t, m_.end.t
+    inside = [n for n in same if lo <= n.start.t < hi]
+    return any(a is not b and a.start.t < b.end.t and b.start.t < a.end.t and (a.start.t, a.end.t) != (b.start.t, b.end.t)
+               for a in inside for b in inside)
+
+
 def first_diff(a, b):
     for cat in a:
         if a[cat] != b.get(cat):
@@ -208,8 +228,7 @@ def check_roundtrip(ctx, arg, xml_bytes, label):
                 if got is None or [tuple(x) for x in got] != exp:
                     miss = [x for x in exp if got is None or x not in got][:3]
                     extra = [x for x in (got or []) if x not in exp][:3]
-                    ctx.violation("under-full-measure-shrinks-on-reload" if (getattr(ctx, "c03_hostile", None) == "underfull-measure" or has_underfull_measure(p))
-                                  else "written-file-denotes-other-sounding-notes", f"part {p.id}: score-only {[(str(a), str(b), c) for a, b, c in miss]}, "
+                    ctx.violation("written-file-denotes-other-sounding-notes", f"part {p.id}: score-only {[(str(a), str(b), c) for a, b, c in miss]}, "
                                   f"file-only {[(str(a), str(b), c) for a, b, c in extra]}", w)
                     break
         # (a) reload and compare
@@ -251,11 +270,9 @@ def check_roundtrip(ctx, arg, xml_bytes, label):
                 cat, only_a, only_b = d
                 key = classify(cat, only_a, only_b, part)
                 hz = getattr(ctx, "c03_hostile", None)
-                if hz is None and cat in ("measures", "notes") and has_underfull_measure(part):
-                    hz = "underfull-measure"
-                if hz == "underfull-measure":
-                    key = "under-full-measure-shrinks-on-reload"       # everything after the short measure moves with it
-                elif hz == "intra-voice-overlap" and cat == "notes" and "voice" in key:
+                if hz is None and cat == "notes" and "voice" in key and only_a and all(overlaps_in_its_voice(part, r_[1]) for r_ in only_a):
+                    hz = "intra-voice-overlap"       # (an importer's score, e.g. from MIDI, with notes overlapping inside a voice)
+                if hz == "intra-voice-overlap" and cat == "notes" and "voice" in key:
                     key = "voice-reassigned-on-intra-voice-overlap"
                 ctx.violation(key, f"part {part.id} {cat}: saved-only {only_a}, loaded-only {only_b}", dict(w, category=cat))
                 break
@@ -291,8 +308,8 @@ def check_roundtrip(ctx, arg, xml_bytes, label):
                               "read them, so the re-export of the re-loaded score lacks them", w)
                 return
             hz = getattr(ctx, "c03_hostile", None)
-            if hz or any(has_underfull_measure(p) for p in score_arg.parts):
-                return                   # consequences of the hostile constructions are reported by the comparison above
+            if hz == "intra-voice-overlap":
+                return                   # consequences of the hostile construction are reported by the comparison above
             ctx.violation("re-export-not-byte-identical", f"line {i}: {la[i].strip() if i < len(la) else '<eof>'!r} vs {lb[i].strip() if i < len(lb) else '<eof>'!r}", w)
     finally:
         _in_check = False
@@ -430,6 +447,19 @@ def run_item(ctx, item):
                 if isinstance(d_, S.DynamicLoudnessDirection):
                     p_.add(d_, on_[a_], on_[b_])
                     ctx.extra["generated_dashes"] += 1
+        if pitched and rng.random() < 0.2:
+            # sustain pedal marks, within a measure or over several (non-overlapping, as on a staff)
+            on_ = sorted({int(n.start.t) for n in pitched} | {int(n.end.t) for n in pitched})
+            t_ = 0
+            for _ in range(rng.randint(1, 3)):
+                later = [x for x in on_ if x >= t_]
+                if len(later) < 2:
+                    break
+                a_ = rng.choice(later[:-1])
+                b_ = rng.choice([x for x in later if x > a_][:8])
+                p_.add(S.SustainPedalDirection(line=rng.random() < 0.5, staff=None), a_, b_)
+                ctx.extra["generated_pedal_marks"] += 1
+                t_ = b_
         if pitched and rng.random() < 0.25:
             inner = sorted({int(n.start.t) for n in pitched})[1:]
             if inner:
